@@ -1,7 +1,788 @@
 import VivModel.Model.Whole
+import VivModel.Props.C02Bits
+import VivModel.Props.C08
+import VivModel.Props.C17
+/-! WHOLE — theorems about the COMPOSED end-to-end model (`Model/Whole.lean`).
+
+All statements are for every configuration, every state and – unless the statement is about numpy's block –
+every block function `B`. No hypothesis on the configuration is hidden: where validity is needed it is the
+explicit hypothesis `0 < cfg.step` / `cfg.keyBits ≤ 53`. -/
 namespace Viv.Props.Whole
 open Viv Viv.Whole
 
-theorem phases_four : PHASES.length = 4 := by decide
+/-! ### what never changes about a simulant; what a step may do to the table -/
+
+/-- the attributes fixed at creation are kept, and an untracked row is kept entirely -/
+def Frozen (r r' : Row) : Prop :=
+  r'.label = r.label ∧ r'.key = r.key ∧ r'.entrance = r.entrance ∧ r'.sex = r.sex ∧ (r.tracked = false → r' = r)
+
+theorem Frozen.refl (r : Row) : Frozen r r := ⟨rfl, rfl, rfl, rfl, fun _ => rfl⟩
+
+theorem Frozen.trans {a b c : Row} (h1 : Frozen a b) (h2 : Frozen b c) : Frozen a c := by
+  obtain ⟨l1, k1, e1, s1, u1⟩ := h1
+  obtain ⟨l2, k2, e2, s2, u2⟩ := h2
+  refine ⟨l2.trans l1, k2.trans k1, e2.trans e1, s2.trans s1, fun hu => ?_⟩
+  have hb := u1 hu
+  subst hb
+  exact u2 hu
+
+/-- `s'` extends `s`: every row of `s` is still there, at the same place, `Frozen` -/
+def Ext (s s' : State) : Prop :=
+  ∀ (i : Nat) (r : Row), s.rows[i]? = some r → ∃ r', s'.rows[i]? = some r' ∧ Frozen r r'
+
+theorem Ext.refl (s : State) : Ext s s := fun _ r h => ⟨r, h, Frozen.refl r⟩
+
+theorem Ext.trans {a b c : State} (h1 : Ext a b) (h2 : Ext b c) : Ext a c := by
+  intro i r hr
+  obtain ⟨r', hr', f1⟩ := h1 i r hr
+  obtain ⟨r'', hr'', f2⟩ := h2 i r' hr'
+  exact ⟨r'', hr'', f1.trans f2⟩
+
+theorem Ext.length_le {a b : State} (h : Ext a b) : a.rows.length ≤ b.rows.length := by
+  rcases Nat.lt_or_ge b.rows.length a.rows.length with hlt | hge
+  · have : ∃ r, a.rows[b.rows.length]? = some r := ⟨a.rows[b.rows.length], by simp [hlt]⟩
+    obtain ⟨r, hr⟩ := this
+    obtain ⟨r', hr', _⟩ := h _ r hr
+    have : b.rows[b.rows.length]? = none := List.getElem?_eq_none (Nat.le_refl _)
+    rw [this] at hr'; cases hr'
+  · exact hge
+
+/-- every label is the row's position in the table (labels are `0, 1, 2, …` in creation order) -/
+def Lab (s : State) : Prop := ∀ (i : Nat) (r : Row), s.rows[i]? = some r → r.label = i
+
+theorem lab_labels (s : State) (h : Lab s) : s.rows.map (·.label) = List.range s.rows.length := by
+  apply List.ext_getElem?
+  intro i
+  rw [List.getElem?_map]
+  rcases Nat.lt_or_ge i s.rows.length with hlt | hge
+  · rw [List.getElem?_range hlt]
+    have : s.rows[i]? = some s.rows[i] := by simp [hlt]
+    rw [this]; simp [h i _ this]
+  · rw [List.getElem?_eq_none hge, List.getElem?_eq_none (by simpa using hge)]; rfl
+
+/-! ### simulant creation -/
+
+theorem filter_range_fresh (n k : Nat) :
+    (List.range (n + k)).filter (fun l => !(List.range n).contains l) = List.range' n k := by
+  induction k with
+  | zero =>
+    simp only [Nat.add_zero, List.range'_zero, List.filter_eq_nil_iff]
+    intro a ha
+    simp [List.mem_range.mp ha]
+  | succ k ih =>
+    rw [← Nat.add_assoc, List.range_succ, List.filter_append, ih, List.range'_concat]
+    simp
+
+/-- **creation hands out the next labels**: with labels `0 … n-1` in the table, `count` new simulants are
+`n, …, n + count - 1` (`range(len + count)` minus the existing index) -/
+theorem newLabels_fresh (s : State) (h : Lab s) (k : Nat) : newLabels s.rows k = List.range' s.rows.length k := by
+  unfold newLabels
+  rw [lab_labels s h]
+  exact filter_range_fresh _ _
+
+/-- the key the CRN-initialising stream gives to the `j`-th simulant of a creation at clock `t` from
+creation site `site`: a function of seed, clock, site, block size, position in the batch – nothing else -/
+def crnKey (B : Blk) (cfg : Config) (site : String) (t : Int) (j : Nat) : Nat :=
+  keyOf cfg.keyBits
+    ((B (seedStr cfg "wpop_crn" t (if cfg.akPerPhase then "key" ++ site else "key")) (blockSize cfg))[j]?.getD 0)
+
+theorem getElem?_mkRows (clock : Int) (labels keys sexes sts : List Nat) (j : Nat) :
+    (mkRows clock labels keys sexes sts)[j]? =
+      (labels[j]?).map fun l => ⟨l, true, keys.getD j 0, clock, sexes.getD j 0, sts.getD j 0, none⟩ := by
+  unfold mkRows
+  rw [List.getElem?_map, List.getElem?_zipIdx]
+  cases labels[j]? <;> simp
+
+theorem length_mkRows (clock : Int) (labels keys sexes sts : List Nat) :
+    (mkRows clock labels keys sexes sts).length = labels.length := by
+  simp [mkRows]
+
+/-- **what a creation does**: the clock and every existing row are untouched; the new rows are appended, carry
+the new labels in order, are tracked, entered at the current clock, have not left, and their `key` is the
+positional draw `crnKey` – whatever the existing population, the index map and every other parameter are. -/
+theorem create_spec (B : Blk) (cfg : Config) (site : String) (k : Nat) (s s' : State)
+    (h : create B cfg site k s = .ok s') :
+    s'.clock = s.clock ∧ ∃ sexes sts : List Nat,
+      s'.rows = s.rows ++ mkRows s.clock (newLabels s.rows k)
+        ((List.range (newLabels s.rows k).length).map (crnKey B cfg site s.clock)) sexes sts := by
+  unfold create at h
+  simp only at h
+  split at h
+  · rename_i hemp
+    cases h
+    refine ⟨rfl, [], [], ?_⟩
+    rw [List.isEmpty_iff.mp hemp]
+    simp [mkRows]
+  · split at h
+    · cases h
+    · rename_i kd hkd
+      split at h
+      · cases h
+      · split at h
+        · cases h
+        · split at h
+          · cases h
+          · rename_i sexes hsex _ sts hsts
+            cases h
+            refine ⟨rfl, sexes, sts, ?_⟩
+            simp only
+            congr 2
+            -- the keys are the positional draws
+            unfold Stream.getDrawInit at hkd
+            split at hkd
+            · cases hkd
+              apply List.ext_getElem?
+              intro j
+              simp only [List.getElem?_map, List.getElem?_zipIdx, List.map_map]
+              rcases Nat.lt_or_ge j (newLabels s.rows k).length with hlt | hge
+              · rw [List.getElem?_range hlt]
+                have : (newLabels s.rows k)[j]? = some (newLabels s.rows k)[j] := by simp [hlt]
+                rw [this]
+                simp [crnKey, RandomBlock.memoBlk]
+              · rw [List.getElem?_eq_none hge, List.getElem?_eq_none (by simpa using hge)]
+                rfl
+            · cases hkd
+
+/-! ### one listener call -/
+
+/-- what one listener call may do to an existing row when the event time is `t`: nothing, a change of the machine's
+state of a tracked simulant, or untracking a tracked simulant with `exit = t` -/
+def Evolves (t : Int) (r r' : Row) : Prop :=
+  r' = r ∨ (r.tracked = true ∧ ∃ x, r' = { r with st := x }) ∨
+    (r.tracked = true ∧ r' = { r with tracked := false, exit := some t })
+
+theorem Evolves.frozen {t : Int} {r r' : Row} (h : Evolves t r r') : Frozen r r' := by
+  rcases h with h | ⟨ht, x, h⟩ | ⟨ht, h⟩
+  · subst h; exact Frozen.refl _
+  · subst h; exact ⟨rfl, rfl, rfl, rfl, fun hu => by simp [ht] at hu⟩
+  · subst h; exact ⟨rfl, rfl, rfl, rfl, fun hu => by simp [ht] at hu⟩
+
+/-- a row that a creation at state `s` appended at table position `i` -/
+def Fresh (B : Blk) (cfg : Config) (s : State) (i : Nat) (r : Row) : Prop :=
+  r.tracked = true ∧ r.exit = none ∧ r.entrance = s.clock ∧ (Lab s → r.label = i) ∧
+    ∃ site j, r.key = crnKey B cfg site s.clock j
+
+/-- the effect of one listener call at event time `t` -/
+structure ActRel (B : Blk) (cfg : Config) (t : Int) (s s' : State) : Prop where
+  clock : s'.clock = s.clock
+  old : ∀ (i : Nat) (r : Row), s.rows[i]? = some r → ∃ r', s'.rows[i]? = some r' ∧ Evolves t r r'
+  new : ∀ (i : Nat) (r' : Row), s'.rows[i]? = some r' → s.rows.length ≤ i → Fresh B cfg s i r'
+
+theorem ActRel.rfl' (B : Blk) (cfg : Config) (t : Int) (s : State) : ActRel B cfg t s s :=
+  ⟨rfl, fun _ r h => ⟨r, h, Or.inl rfl⟩, fun i r' h hi => by rw [List.getElem?_eq_none hi] at h; cases h⟩
+
+theorem lt_of_getElem? {α : Type} {l : List α} {i : Nat} {a : α} (h : l[i]? = some a) : i < l.length := by
+  rcases Nat.lt_or_ge i l.length with hlt | hge
+  · exact hlt
+  · rw [List.getElem?_eq_none hge] at h; cases h
+
+/-- a creation -/
+theorem create_rel (B : Blk) (cfg : Config) (t : Int) (site : String) (k : Nat) (s s' : State)
+    (h : create B cfg site k s = .ok s') : ActRel B cfg t s s' := by
+  obtain ⟨hc, sexes, sts, hrows⟩ := create_spec B cfg site k s s' h
+  refine ⟨hc, ?_, ?_⟩
+  · intro i r hr
+    exact ⟨r, by rw [hrows, List.getElem?_append_left (lt_of_getElem? hr)]; exact hr, Or.inl rfl⟩
+  · intro i r hr hge
+    rw [hrows, List.getElem?_append_right hge, getElem?_mkRows] at hr
+    obtain ⟨l, hl, hr⟩ := Option.map_eq_some_iff.mp hr
+    subst hr
+    refine ⟨rfl, rfl, rfl, fun hlab => ?_, site, i - s.rows.length, ?_⟩
+    · rw [newLabels_fresh s hlab] at hl
+      have hj := lt_of_getElem? hl
+      simp only [List.length_range'] at hj
+      rw [List.getElem?_range' hj] at hl
+      simp only [Option.some.injEq] at hl
+      simp only; omega
+    · have hj := lt_of_getElem? hl
+      simp only [List.getD_eq_getElem?_getD, List.getElem?_map]
+      rw [List.getElem?_range hj]
+      rfl
+
+/-- `WPop.births` -/
+theorem births_rel (B : Blk) (cfg : Config) (t : Int) (ph : Nat) (s s' : State)
+    (h : births B cfg ph s = .ok s') : ActRel B cfg t s s' := by
+  unfold births at h
+  simp only at h
+  split at h
+  · split at h
+    · exact create_rel B cfg t _ _ s s' h
+    · cases h; exact ActRel.rfl' B cfg t s
+  · cases h; exact ActRel.rfl' B cfg t s
+
+/-- `WMort.act`: nobody is added or removed; a tracked simulant may be untracked with `exit = event.time`;
+the index map is untouched -/
+theorem mort_rel (B : Blk) (cfg : Config) (evIdx : List Nat) (evTime : Int) (s s' : State)
+    (h : mort B cfg evIdx evTime s = .ok s') :
+    ActRel B cfg evTime s s' ∧ s'.rows.length = s.rows.length ∧ s'.imap = s.imap := by
+  unfold mort at h
+  simp only at h
+  split at h
+  · cases h; exact ⟨ActRel.rfl' B cfg _ s, rfl, rfl⟩
+  · split at h
+    · cases h
+    · cases h
+      refine ⟨⟨rfl, ?_, ?_⟩, by simp, rfl⟩
+      · intro i r hr
+        simp only [List.getElem?_map, hr, Option.map_some]
+        refine ⟨_, rfl, ?_⟩
+        split
+        · rename_i hc
+          refine Or.inr (Or.inr ⟨?_, rfl⟩)
+          simp only [live, Bool.and_eq_true] at hc
+          exact hc.1.1
+        · exact Or.inl rfl
+      · intro i r' hr' hge
+        rw [List.getElem?_eq_none (by simpa using hge)] at hr'
+        cases hr'
+
+/-- the table positions `WDisease.act` hands to the machine are those of tracked simulants of the event index -/
+theorem mem_liveIdx (evIdx : List Nat) (rows : List Row) (i : Nat) :
+    i ∈ (rows.zipIdx.filter fun p => live evIdx p.1).map (·.2) ↔ ∃ r, rows[i]? = some r ∧ live evIdx r = true := by
+  simp only [List.mem_map, List.mem_filter]
+  constructor
+  · rintro ⟨⟨r, j⟩, ⟨hm, hl⟩, rfl⟩
+    exact ⟨r, List.mk_mem_zipIdx_iff_getElem?.mp hm, hl⟩
+  · rintro ⟨r, hr, hl⟩
+    exact ⟨(r, i), ⟨List.mk_mem_zipIdx_iff_getElem?.mpr hr, hl⟩, rfl⟩
+
+/-- `WDisease.act` through the C17 model (`transition_frame`): only the `state` cell of tracked simulants of the
+event index can change; nobody is added; the index map is untouched -/
+theorem disease_rel (B : Blk) (cfg : Config) (t : Int) (evIdx : List Nat) (s s' : State)
+    (h : disease B cfg evIdx s = .ok s') :
+    ActRel B cfg t s s' ∧ s'.rows.length = s.rows.length ∧ s'.imap = s.imap := by
+  unfold disease at h
+  simp only at h
+  split at h
+  · cases h; exact ⟨ActRel.rfl' B cfg _ s, rfl, rfl⟩
+  · split at h
+    · cases h
+    · split at h
+      · cases h
+      · rename_i tab htab
+        cases h
+        obtain ⟨hlen, hout, _⟩ := Viv.Props.C17.transition_frame _ _ _ _ _ htab
+        have hlen' : tab.length = s.rows.length := by simpa using hlen
+        refine ⟨⟨rfl, ?_, ?_⟩, by simp [hlen'], rfl⟩
+        · intro i r hr
+          have hi := lt_of_getElem? hr
+          have htb : tab[i]? = some tab[i] := by simp [hlen', hi]
+          simp only [List.getElem?_zipWith, hr, htb]
+          refine ⟨_, rfl, ?_⟩
+          by_cases hu : r.tracked = true
+          · exact Or.inr (Or.inl ⟨hu, _, rfl⟩)
+          · left
+            have hni : i ∉ (s.rows.zipIdx.filter fun p => live evIdx p.1).map (·.2) := by
+              rw [mem_liveIdx]
+              rintro ⟨r2, hr2, hl⟩
+              rw [hr] at hr2; cases hr2
+              simp only [live, Bool.and_eq_true] at hl
+              exact hu hl.1
+            have := hout i hni
+            rw [htb, List.getElem?_map, hr] at this
+            simp only [Option.map_some, Option.some.injEq] at this
+            rw [this]
+        · intro i r' hr' hge
+          rw [List.getElem?_eq_none (by simp [hlen']; exact hge)] at hr'
+          cases hr'
+
+/-- **every listener call** -/
+theorem act_rel (B : Blk) (cfg : Config) (ph : Nat) (evIdx : List Nat) (evTime : Int) (who : Nat) (s s' : State)
+    (h : act B cfg ph evIdx evTime who s = .ok s') : ActRel B cfg evTime s s' := by
+  unfold act at h
+  split at h
+  · exact births_rel B cfg evTime ph s s' h
+  · split at h
+    · exact (mort_rel B cfg evIdx evTime s s' h).1
+    · exact (disease_rel B cfg evTime evIdx s s' h).1
+
+/-! ### lifting an invariant of listener calls to events, steps and runs -/
+
+/-- `I` is kept by every listener call whose event time is `clock + step` -/
+def Kept (B : Blk) (cfg : Config) (I : State → Prop) : Prop :=
+  ∀ s s', I s → ActRel B cfg (s.clock + cfg.step) s s' → I s'
+
+theorem runListeners_inv (B : Blk) (cfg : Config) (I : State → Prop) (hI : Kept B cfg I) (ph : Nat)
+    (evIdx : List Nat) (t : Int) :
+    ∀ (rs : List Ev.Reg) (s s' : State), I s → s.clock + cfg.step = t →
+      runListeners B cfg ph evIdx t rs s = .ok s' → I s' ∧ s'.clock = s.clock := by
+  intro rs
+  induction rs with
+  | nil => intro s s' hi _ h; cases h; exact ⟨hi, rfl⟩
+  | cons r rs ih =>
+    intro s s' hi ht h
+    unfold runListeners at h
+    split at h
+    · rename_i s1 h1
+      have hr := act_rel B cfg ph evIdx t r.2 s s1 h1
+      have i1 : I s1 := hI s s1 hi (by rw [ht]; exact hr)
+      obtain ⟨i2, c2⟩ := ih s1 s' i1 (by rw [hr.clock]; exact ht) h
+      exact ⟨i2, c2.trans hr.clock⟩
+    · cases h
+
+theorem runPhases_inv (B : Blk) (cfg : Config) (I : State → Prop) (hI : Kept B cfg I) :
+    ∀ (phs : List Nat) (s s' : State), I s → runPhases B cfg phs s = .ok s' → I s' ∧ s'.clock = s.clock := by
+  intro phs
+  induction phs with
+  | nil => intro s s' hi h; cases h; exact ⟨hi, rfl⟩
+  | cons ph phs ih =>
+    intro s s' hi h
+    unfold runPhases at h
+    split at h
+    · rename_i s1 h1
+      obtain ⟨i1, c1⟩ := runListeners_inv B cfg I hI ph _ _ _ s s1 hi rfl h1
+      obtain ⟨i2, c2⟩ := ih s1 s' i1 h
+      exact ⟨i2, c2.trans c1⟩
+    · cases h
+
+/-- one `step()` = the listener calls of the four events (each keeps `I`), then the clock advances -/
+theorem step_inv (B : Blk) (cfg : Config) (I : State → Prop) (hI : Kept B cfg I) (s s' : State) (hi : I s)
+    (h : stepWhole B cfg s = .ok s') :
+    ∃ s1, I s1 ∧ s1.clock = s.clock ∧ s' = { s1 with clock := s1.clock + cfg.step } := by
+  unfold stepWhole at h
+  split at h
+  · rename_i s1 h1
+    cases h
+    obtain ⟨i1, c1⟩ := runPhases_inv B cfg I hI _ s s1 hi h1
+    exact ⟨s1, i1, c1, rfl⟩
+  · cases h
+
+/-- **the clock**: one step advances it by exactly one step size -/
+theorem step_clock (B : Blk) (cfg : Config) (s s' : State) (h : stepWhole B cfg s = .ok s') :
+    s'.clock = s.clock + cfg.step := by
+  obtain ⟨s1, _, c1, rfl⟩ := step_inv B cfg (fun _ => True) (fun _ _ _ _ => trivial) s s' trivial h
+  simp [c1]
+
+/-- an invariant that does not look at the clock is kept by steps -/
+theorem step_inv_rows (B : Blk) (cfg : Config) (I : State → Prop) (hI : Kept B cfg I)
+    (hclk : ∀ (s : State) (c : Int), I s → I { s with clock := c }) (s s' : State) (hi : I s)
+    (h : stepWhole B cfg s = .ok s') : I s' := by
+  obtain ⟨s1, i1, _, rfl⟩ := step_inv B cfg I hI s s' hi h
+  exact hclk _ _ i1
+
+theorem iter_inv_rows (B : Blk) (cfg : Config) (I : State → Prop) (hI : Kept B cfg I)
+    (hclk : ∀ (s : State) (c : Int), I s → I { s with clock := c }) :
+    ∀ (n : Nat) (s s' : State), I s → iterWhole B cfg n s = .ok s' → I s' := by
+  intro n
+  induction n with
+  | zero => intro s s' hi h; cases h; exact hi
+  | succ n ih =>
+    intro s s' hi h
+    unfold iterWhole at h
+    split at h
+    · rename_i s1 h1
+      exact ih s1 s' (step_inv_rows B cfg I hI hclk s s1 hi h1) h
+    · cases h
+
+theorem iter_clock (B : Blk) (cfg : Config) :
+    ∀ (n : Nat) (s s' : State), iterWhole B cfg n s = .ok s' → s'.clock = s.clock + n * cfg.step := by
+  intro n
+  induction n with
+  | zero => intro s s' h; cases h; simp
+  | succ n ih =>
+    intro s s' h
+    unfold iterWhole at h
+    split at h
+    · rename_i s1 h1
+      rw [ih s1 s' h, step_clock B cfg s s1 h1, Int.add_assoc]
+      congr 1
+      rw [Int.natCast_succ, Int.add_mul, Int.one_mul, Int.add_comm]
+    · cases h
+
+/-! ### the invariants -/
+
+/-- every row sits at the position of its label, and its `key` is a positional draw of the CRN-initialising
+stream at its entrance time (from some creation site, at some position of that creation's batch) -/
+def Good (B : Blk) (cfg : Config) (s : State) : Prop :=
+  ∀ (i : Nat) (r : Row), s.rows[i]? = some r → r.label = i ∧ ∃ site j, r.key = crnKey B cfg site r.entrance j
+
+theorem good_lab {B : Blk} {cfg : Config} {s : State} (h : Good B cfg s) : Lab s := fun i r hr => (h i r hr).1
+
+theorem good_kept (B : Blk) (cfg : Config) : Kept B cfg (Good B cfg) := by
+  intro s s' hg hr i r' hr'
+  rcases Nat.lt_or_ge i s.rows.length with hlt | hge
+  · have hri : s.rows[i]? = some s.rows[i] := by simp [hlt]
+    obtain ⟨r'', hr'', hev⟩ := hr.old i _ hri
+    rw [hr'] at hr''; cases hr''
+    obtain ⟨l, k, e, _, _⟩ := hev.frozen
+    obtain ⟨hl, site, j, hk⟩ := hg i _ hri
+    exact ⟨l.trans hl, site, j, by rw [k, e]; exact hk⟩
+  · obtain ⟨_, _, he, hl, site, j, hk⟩ := hr.new i r' hr' hge
+    exact ⟨hl (good_lab hg), site, j, by rw [he]; exact hk⟩
+
+theorem good_clock (B : Blk) (cfg : Config) (s : State) (c : Int) (h : Good B cfg s) :
+    Good B cfg { s with clock := c } := h
+
+/-- `s'` extends a fixed earlier state -/
+theorem ext_kept (B : Blk) (cfg : Config) (s0 : State) : Kept B cfg (Ext s0) := by
+  intro s s' he hr i r hri
+  obtain ⟨r1, h1, f1⟩ := he i r hri
+  obtain ⟨r2, h2, e2⟩ := hr.old i r1 h1
+  exact ⟨r2, h2, f1.trans e2.frozen⟩
+
+theorem good_initState (B : Blk) (cfg : Config) : Good B cfg (initState cfg) := by
+  intro i r hr
+  simp [initState] at hr
+
+/-- the initial population satisfies the invariant; the clock is at the start time -/
+theorem initPop_good (B : Blk) (cfg : Config) (s : State) (h : initPopB B cfg = .ok s) :
+    Good B cfg s ∧ s.clock = cfg.start := by
+  unfold initPopB at h
+  split at h
+  · rename_i s0 h0
+    cases h
+    have hr := create_rel B cfg ((initState cfg).clock + cfg.step) _ _ _ s0 h0
+    refine ⟨good_kept B cfg _ s0 (good_initState B cfg) hr, ?_⟩
+    simp only [hr.clock, initState]
+    omega
+  · cases h
+
+/-! ### run = iterated step; interrupt and resume -/
+
+/-- **running `n + m` steps = running `n` steps, then `m` more** (interrupt / resume at any step boundary;
+an error in the first part is the error of the whole) -/
+theorem iter_add (B : Blk) (cfg : Config) (n m : Nat) :
+    ∀ s : State, iterWhole B cfg (n + m) s = (iterWhole B cfg n s).bind (iterWhole B cfg m) := by
+  induction n with
+  | zero => intro s; rw [Nat.zero_add]; rfl
+  | succ n ih =>
+    intro s
+    rw [Nat.succ_add]
+    show iterWhole B cfg (n + m + 1) s = (iterWhole B cfg (n + 1) s).bind (iterWhole B cfg m)
+    unfold iterWhole
+    cases stepWhole B cfg s with
+    | ok s' => exact ih s'
+    | error e => rfl
+
+/-- resuming from the state reached after `n` steps gives what the uninterrupted run gives -/
+theorem resume_at_any_boundary (B : Blk) (cfg : Config) (n m : Nat) (s s1 : State)
+    (h : iterWhole B cfg n s = .ok s1) : iterWhole B cfg (n + m) s = iterWhole B cfg m s1 := by
+  rw [iter_add, h]; rfl
+
+theorem ceil_zero (a h : Int) (hh : 0 < h) (ha : a ≤ 0) : (Ev.ceilDiv a h).toNat = 0 := by
+  unfold Ev.ceilDiv
+  have : (a + h - 1) / h < 1 := Int.ediv_lt_of_lt_mul hh (by omega)
+  omega
+
+theorem ceil_succ (a h : Int) (hh : 0 < h) (ha : 0 < a) :
+    (Ev.ceilDiv a h).toNat = (Ev.ceilDiv (a - h) h).toNat + 1 := by
+  unfold Ev.ceilDiv
+  have e : a + h - 1 = (a - h + h - 1) + 1 * h := by omega
+  rw [e, Int.add_mul_ediv_right _ _ (by omega)]
+  have : 0 ≤ (a - h + h - 1) / h := Int.ediv_nonneg (by omega) (by omega)
+  omega
+
+/-- **`run()` = `step()` iterated**: for a positive step size the `while clock < stop` loop (with enough fuel) is
+exactly `⌈(stop - clock) / step⌉` single steps – for every configuration and every state, errors included. -/
+theorem runWhole_eq_iter (B : Blk) (cfg : Config) (hstep : 0 < cfg.step) :
+    ∀ (fuel : Nat) (s : State), (Ev.ceilDiv (cfg.stop - s.clock) cfg.step).toNat ≤ fuel →
+      runWholeB B cfg fuel s = iterWhole B cfg (Ev.ceilDiv (cfg.stop - s.clock) cfg.step).toNat s := by
+  intro fuel
+  induction fuel with
+  | zero =>
+    intro s hf
+    have : (Ev.ceilDiv (cfg.stop - s.clock) cfg.step).toNat = 0 := by omega
+    rw [this]; rfl
+  | succ fuel ih =>
+    intro s hf
+    unfold runWholeB
+    split
+    · rename_i hlt
+      have hs := ceil_succ (cfg.stop - s.clock) cfg.step hstep (by omega)
+      rw [hs]
+      show _ = match stepWhole B cfg s with
+        | .ok s' => iterWhole B cfg _ s'
+        | .error e => .error e
+      cases hst : stepWhole B cfg s with
+      | error e => rfl
+      | ok s' =>
+        simp only
+        have hc := step_clock B cfg s s' hst
+        have e : cfg.stop - s'.clock = cfg.stop - s.clock - cfg.step := by rw [hc]; omega
+        rw [← e]
+        apply ih
+        rw [e]; omega
+    · rename_i hge
+      rw [ceil_zero _ _ hstep (by omega)]; rfl
+
+/-- … and the number of steps is the one C08 proves for the clock alone: the first `n` with `stop ≤ clock + n·step` -/
+theorem run_steps_first (cfg : Config) (s : State) (hstep : 0 < cfg.step) (hs : s.clock < cfg.stop) :
+    (∀ k : Nat, k < (Ev.ceilDiv (cfg.stop - s.clock) cfg.step).toNat → s.clock + k * cfg.step < cfg.stop) ∧
+      cfg.stop ≤ s.clock + (Ev.ceilDiv (cfg.stop - s.clock) cfg.step).toNat * cfg.step :=
+  Viv.Props.C08.ceil_is_first s.clock cfg.stop cfg.step hstep hs
+
+/-- the four events of the model are the states of the `main_loop` phase as `engine.py` declares them (regenerated
+from the source on every run), in that order; ten priority buckets -/
+theorem phases_are_declared : Ctx.phaseStates "main_loop" = PHASES ∧ Gen.nBuckets = 10 := by decide
+
+/-! ### labels -/
+
+/-- **labels over a whole run are `0 … n-1`**: after the initial creation and any number of steps (births in any
+channel, in any listener order) the table's labels are consecutive from 0 in table order -/
+theorem labels_fresh (B : Blk) (cfg : Config) (n : Nat) (s0 s : State) (h0 : initPopB B cfg = .ok s0)
+    (h : iterWhole B cfg n s0 = .ok s) : s.rows.map (·.label) = List.range s.rows.length :=
+  lab_labels s (good_lab (iter_inv_rows B cfg _ (good_kept B cfg) (good_clock B cfg) n s0 s (initPop_good B cfg s0 h0).1 h))
+
+/-- **no label is ever reused and no row ever disappears**: continuing from any reachable state, every earlier row
+is still at its place with its label, and every row added later carries a label that was not in the table –
+untracked simulants included -/
+theorem labels_never_reused (B : Blk) (cfg : Config) (n m : Nat) (s0 s1 s2 : State) (h0 : initPopB B cfg = .ok s0)
+    (h1 : iterWhole B cfg n s0 = .ok s1) (h2 : iterWhole B cfg m s1 = .ok s2) :
+    s1.rows.length ≤ s2.rows.length ∧
+    (∀ (i : Nat) (r : Row), s1.rows[i]? = some r → ∃ r', s2.rows[i]? = some r' ∧ r'.label = r.label) ∧
+    (∀ (i : Nat) (r : Row), s2.rows[i]? = some r → s1.rows.length ≤ i → r.label ∉ s1.rows.map (·.label)) := by
+  have g1 := iter_inv_rows B cfg _ (good_kept B cfg) (good_clock B cfg) n s0 s1 (initPop_good B cfg s0 h0).1 h1
+  have g2 := iter_inv_rows B cfg _ (good_kept B cfg) (good_clock B cfg) m s1 s2 g1 h2
+  have hext : Ext s1 s2 := iter_inv_rows B cfg _ (ext_kept B cfg s1) (fun _ _ h => h) m s1 s2 (Ext.refl s1) h2
+  refine ⟨hext.length_le, fun i r hr => ?_, fun i r hr hge => ?_⟩
+  · obtain ⟨r', hr', f⟩ := hext i r hr
+    exact ⟨r', hr', f.1⟩
+  · rw [lab_labels s1 (good_lab g1), (g2 i r hr).1, List.mem_range]
+    omega
+
+/-! ### untracked simulants -/
+
+/-- **an untracked simulant stays untracked – and entirely unchanged – for the rest of the run**: nothing in the
+composition (mortality, the machine through its tracked-only view, births) touches its row again -/
+theorem untracked_stay (B : Blk) (cfg : Config) (n : Nat) (s s' : State) (h : iterWhole B cfg n s = .ok s')
+    (i : Nat) (r : Row) (hr : s.rows[i]? = some r) (hu : r.tracked = false) : s'.rows[i]? = some r := by
+  have hext : Ext s s' := iter_inv_rows B cfg _ (ext_kept B cfg s) (fun _ _ h => h) n s s' (Ext.refl s) h
+  obtain ⟨r', hr', f⟩ := hext i r hr
+  rw [hr', f.2.2.2.2 hu]
+
+/-- the attributes fixed at creation (label, key, entrance, sex) never change -/
+theorem creation_attributes_fixed (B : Blk) (cfg : Config) (n : Nat) (s s' : State)
+    (h : iterWhole B cfg n s = .ok s') (i : Nat) (r : Row) (hr : s.rows[i]? = some r) :
+    ∃ r', s'.rows[i]? = some r' ∧ r'.label = r.label ∧ r'.key = r.key ∧ r'.entrance = r.entrance ∧ r'.sex = r.sex := by
+  have hext : Ext s s' := iter_inv_rows B cfg _ (ext_kept B cfg s) (fun _ _ h => h) n s s' (Ext.refl s) h
+  obtain ⟨r', hr', f⟩ := hext i r hr
+  exact ⟨r', hr', f.1, f.2.1, f.2.2.1, f.2.2.2.1⟩
+
+/-! ### draws are in range -/
+
+/-- every number the model reads from numpy's block is below 2^53 (`numerator_lt`: bit-level theorem about the
+SHA-1 + MT19937 model), i.e. every draw lies in [0, 1) -/
+theorem draws_in_range (ks : String) (size p : Nat) : (RandomBlock.blockOf ks size)[p]?.getD 0 < 2 ^ 53 :=
+  Viv.Props.C02Bits.numerator_lt (Sha1.getHash ks) size p
+
+theorem keyOf_lt (bits d : Nat) (hb : bits ≤ 53) (hd : d < 2 ^ 53) : keyOf bits d < 2 ^ bits := by
+  unfold keyOf
+  rw [Nat.div_lt_iff_lt_mul (Nat.pow_pos (by decide)), ← Nat.pow_add]
+  have : bits + (53 - bits) = 53 := by omega
+  rw [this]; exact hd
+
+/-- **every `key` of a whole run is in range**: with the real block, after any number of steps every simulant's key
+is below `2^keyBits` (a `keyBits`-bit integer / a float in [0, 1)) -/
+theorem keys_in_range (cfg : Config) (hb : cfg.keyBits ≤ 53) (n : Nat) (s0 s : State) (h0 : initPop cfg = .ok s0)
+    (h : iterWhole RandomBlock.blockOf cfg n s0 = .ok s) : ∀ r ∈ s.rows, r.key < 2 ^ cfg.keyBits := by
+  intro r hr
+  obtain ⟨i, hi⟩ := List.mem_iff_getElem?.mp hr
+  have g := iter_inv_rows _ cfg _ (good_kept _ cfg) (good_clock _ cfg) n s0 s (initPop_good _ cfg s0 h0).1 h
+  obtain ⟨_, site, j, hk⟩ := g i r hi
+  rw [hk]
+  exact keyOf_lt _ _ hb (draws_in_range _ _ _)
+
+/-- the block the model reads through `memoBlk` is `realBlk` (C02's `getDraw_memo`): the draws of the whole
+simulation are `Stream.getDraw realBlk` of `joinKey decisionPoint (toString clock) additionalKey seed` -/
+theorem draws_eq_real (size : Nat) (pos : Nat → Option Nat) (ks : String) (req : List Nat) :
+    Stream.getDraw (RandomBlock.memoBlk (RandomBlock.blockOf ks size)) size pos ks req =
+      Stream.getDraw RandomBlock.realBlk size pos ks req :=
+  Viv.Props.C02Bits.getDraw_memo size pos ks req
+
+/-! ### common random numbers: the CRN attributes of the initial population -/
+
+/-- **the initial population in closed form**: `population_size` rows with labels `0 …`, tracked, created at
+`start - step` (the fencepost), and simulant `i`'s key is the `i`-th positional draw of the CRN-initialising stream
+at that time – a function of (seed, start - step, block size, key bits, i) and of nothing else -/
+theorem initial_population (B : Blk) (cfg : Config) (s0 : State) (h0 : initPopB B cfg = .ok s0) :
+    s0.rows.length = cfg.pop ∧ ∀ i, i < cfg.pop → ∃ r, s0.rows[i]? = some r ∧ r.label = i ∧ r.tracked = true ∧
+      r.exit = none ∧ r.entrance = cfg.start - cfg.step ∧ r.key = crnKey B cfg "init" (cfg.start - cfg.step) i := by
+  unfold initPopB at h0
+  split at h0
+  · rename_i s1 h1
+    cases h0
+    obtain ⟨_, sexes, sts, hrows⟩ := create_spec B cfg _ _ _ s1 h1
+    have hl : newLabels (initState cfg).rows cfg.pop = List.range' 0 cfg.pop :=
+      newLabels_fresh (initState cfg) (good_lab (good_initState B cfg)) cfg.pop
+    rw [hl] at hrows
+    simp only [initState, List.nil_append, List.length_range'] at hrows
+    refine ⟨by simp [hrows, length_mkRows], fun i hi => ?_⟩
+    simp only [hrows, getElem?_mkRows, List.getElem?_range' hi, Option.map_some]
+    refine ⟨_, rfl, by simp, rfl, rfl, rfl, ?_⟩
+    simp only [List.getD_eq_getElem?_getD, List.getElem?_map, List.getElem?_range hi]
+    rfl
+  · cases h0
+
+/-- … and it stays so for the whole run: after ANY number of steps, under ANY births schedule, mortality, machine,
+listener order and priorities, simulant `i < population_size` still has exactly that key and entrance time -/
+theorem initial_keys_closed_form (B : Blk) (cfg : Config) (n : Nat) (s0 s : State) (h0 : initPopB B cfg = .ok s0)
+    (h : iterWhole B cfg n s0 = .ok s) (i : Nat) (hi : i < cfg.pop) :
+    ∃ r, s.rows[i]? = some r ∧ r.label = i ∧ r.entrance = cfg.start - cfg.step ∧
+      r.key = crnKey B cfg "init" (cfg.start - cfg.step) i := by
+  obtain ⟨r0, hr0, hl, _, _, he, hk⟩ := (initial_population B cfg s0 h0).2 i hi
+  obtain ⟨r, hr, l, k, e, _⟩ := creation_attributes_fixed B cfg n s0 s h i r0 hr0
+  exact ⟨r, hr, l.trans hl, e.trans he, k.trans hk⟩
+
+/-- **the CRN attributes of the initial population do not depend on the scenario.** Two simulations – any block
+function – that agree on seed, start, step size, key bits, the additional-key convention and the block size
+(`max(map_size, 10·population_size)`), and may differ in EVERYTHING else (births schedule in every channel, mortality
+table, machine, initial-state weights, sex ratio, component order, listener priorities and channels, key columns,
+int / float key, number of steps taken): every simulant of the initial population has the same `key` and the same
+`entrance` in both, after any numbers of steps. -/
+theorem initial_keys_independent_of_births (B : Blk) (c1 c2 : Config) (hseed : c1.seed = c2.seed)
+    (hstart : c1.start = c2.start) (hstep : c1.step = c2.step) (hbits : c1.keyBits = c2.keyBits)
+    (hak : c1.akPerPhase = c2.akPerPhase) (hsize : blockSize c1 = blockSize c2)
+    (n1 n2 : Nat) (a0 a b0 b : State)
+    (ha0 : initPopB B c1 = .ok a0) (ha : iterWhole B c1 n1 a0 = .ok a)
+    (hb0 : initPopB B c2 = .ok b0) (hb : iterWhole B c2 n2 b0 = .ok b)
+    (i : Nat) (h1 : i < c1.pop) (h2 : i < c2.pop) :
+    ∃ ra rb, a.rows[i]? = some ra ∧ b.rows[i]? = some rb ∧ ra.key = rb.key ∧ ra.entrance = rb.entrance ∧
+      ra.label = rb.label := by
+  obtain ⟨ra, hra, la, ea, ka⟩ := initial_keys_closed_form B c1 n1 a0 a ha0 ha i h1
+  obtain ⟨rb, hrb, lb, eb, kb⟩ := initial_keys_closed_form B c2 n2 b0 b hb0 hb i h2
+  refine ⟨ra, rb, hra, hrb, ?_, by rw [ea, eb, hstart, hstep], by rw [la, lb]⟩
+  rw [ka, kb]
+  simp only [crnKey, seedStr, hseed, hstart, hstep, hbits, hak, hsize]
+
+/-- with numpy's block the block size does not matter either (`numerator_prefix_stable`): the key of simulant `i` of
+the initial population is the same for every map size and every population size that contains `i` -/
+theorem initial_keys_independent_of_size (c1 c2 : Config) (hseed : c1.seed = c2.seed)
+    (hstart : c1.start = c2.start) (hstep : c1.step = c2.step) (hbits : c1.keyBits = c2.keyBits)
+    (hak : c1.akPerPhase = c2.akPerPhase)
+    (n1 n2 : Nat) (a0 a b0 b : State)
+    (ha0 : initPop c1 = .ok a0) (ha : iterWhole RandomBlock.blockOf c1 n1 a0 = .ok a)
+    (hb0 : initPop c2 = .ok b0) (hb : iterWhole RandomBlock.blockOf c2 n2 b0 = .ok b)
+    (i : Nat) (h1 : i < c1.pop) (h2 : i < c2.pop) :
+    ∃ ra rb, a.rows[i]? = some ra ∧ b.rows[i]? = some rb ∧ ra.key = rb.key ∧ ra.entrance = rb.entrance := by
+  obtain ⟨ra, hra, _, ea, ka⟩ := initial_keys_closed_form _ c1 n1 a0 a ha0 ha i h1
+  obtain ⟨rb, hrb, _, eb, kb⟩ := initial_keys_closed_form _ c2 n2 b0 b hb0 hb i h2
+  refine ⟨ra, rb, hra, hrb, ?_, by rw [ea, eb, hstart, hstep]⟩
+  rw [ka, kb]
+  simp only [crnKey, seedStr, hseed, hstart, hstep, hbits, hak]
+  congr 1
+  have s1 : i < blockSize c1 := by unfold blockSize; omega
+  have s2 : i < blockSize c2 := by unfold blockSize; omega
+  exact Viv.Props.C02Bits.numerator_prefix_stable _ _ _ i s1 s2
+
+/-- **a newborn's key is positional too**: whatever the population, the index map and the other parameters are, the
+`j`-th simulant of a creation at clock `t` from creation site `site` gets `crnKey … site t j` and `entrance = t`.
+(Hence two creation sites that share the additional key at one clock time hand out IDENTICAL keys – the model, like
+the code, then refuses the registration with `RandomnessError` when `key` is a key column.) -/
+theorem newborn_key_positional (B : Blk) (cfg : Config) (site : String) (k : Nat) (s s' : State)
+    (h : create B cfg site k s = .ok s') (hl : Lab s) (j : Nat) (hj : j < k) :
+    ∃ r, s'.rows[s.rows.length + j]? = some r ∧ r.label = s.rows.length + j ∧ r.entrance = s.clock ∧
+      r.key = crnKey B cfg site s.clock j ∧ r.tracked = true := by
+  obtain ⟨_, sexes, sts, hrows⟩ := create_spec B cfg site k s s' h
+  rw [newLabels_fresh s hl] at hrows
+  simp only [List.length_range'] at hrows
+  rw [hrows, List.getElem?_append_right (by omega), getElem?_mkRows]
+  have : s.rows.length + j - s.rows.length = j := by omega
+  rw [this, List.getElem?_range' hj]
+  refine ⟨_, rfl, by simp, rfl, ?_, rfl⟩
+  simp only [List.getD_eq_getElem?_getD, List.getElem?_map, List.getElem?_range hj]
+  rfl
+
+/-! ### entrance and exit times: the composition of clock, event time and creation time -/
+
+/-- inside a step: nobody entered after the clock; tracked ⇔ no exit time; who left did so strictly after entering
+and not after the current event time -/
+def TimedIn (cfg : Config) (s : State) : Prop :=
+  ∀ (i : Nat) (r : Row), s.rows[i]? = some r → r.entrance ≤ s.clock ∧
+    ((r.tracked = true ∧ r.exit = none) ∨
+      (r.tracked = false ∧ ∃ t, r.exit = some t ∧ r.entrance < t ∧ t ≤ s.clock + cfg.step))
+
+/-- at a step boundary -/
+def TimedAt (s : State) : Prop :=
+  ∀ (i : Nat) (r : Row), s.rows[i]? = some r → r.entrance < s.clock ∧
+    ((r.tracked = true ∧ r.exit = none) ∨ (r.tracked = false ∧ ∃ t, r.exit = some t ∧ r.entrance < t ∧ t ≤ s.clock))
+
+theorem timedIn_kept (B : Blk) (cfg : Config) (hstep : 0 < cfg.step) : Kept B cfg (TimedIn cfg) := by
+  intro s s' ht hr i r' hr'
+  rw [hr.clock]
+  rcases Nat.lt_or_ge i s.rows.length with hlt | hge
+  · have hri : s.rows[i]? = some s.rows[i] := by simp [hlt]
+    obtain ⟨r'', hr'', hev⟩ := hr.old i _ hri
+    rw [hr'] at hr''; cases hr''
+    obtain ⟨he, hx⟩ := ht i _ hri
+    rcases hev with h | ⟨_, x, h⟩ | ⟨htr, h⟩
+    · rw [h]; exact ⟨he, hx⟩
+    · rw [h]; exact ⟨he, hx⟩
+    · rw [h]
+      refine ⟨he, Or.inr ⟨rfl, _, rfl, ?_, Int.le_refl _⟩⟩
+      show s.rows[i].entrance < s.clock + cfg.step
+      omega
+  · obtain ⟨htr, hex, hen, _, _⟩ := hr.new i r' hr' hge
+    exact ⟨by rw [hen]; exact Int.le_refl _, Or.inl ⟨htr, hex⟩⟩
+
+/-- **entrance / exit times over a step**: at every step boundary everybody entered strictly before the clock, a
+simulant is tracked exactly when it has no exit time, and who left did so strictly after entering and not after the
+clock (event time = clock + step against creation time = clock: a simulant born and untracked in the same step has
+`entrance < exit`) -/
+theorem step_timed (B : Blk) (cfg : Config) (hstep : 0 < cfg.step) (s s' : State) (ht : TimedAt s)
+    (h : stepWhole B cfg s = .ok s') : TimedAt s' := by
+  have hin : TimedIn cfg s := by
+    intro i r hr
+    obtain ⟨he, hx⟩ := ht i r hr
+    refine ⟨by omega, ?_⟩
+    rcases hx with hx | ⟨hu, t, h1, h2, h3⟩
+    · exact Or.inl hx
+    · exact Or.inr ⟨hu, t, h1, h2, by omega⟩
+  obtain ⟨s1, h1, _, rfl⟩ := step_inv B cfg _ (timedIn_kept B cfg hstep) s s' hin h
+  intro i r hr
+  obtain ⟨he, hx⟩ := h1 i r hr
+  exact ⟨by show r.entrance < s1.clock + cfg.step; omega, hx⟩
+
+theorem initPop_timed (B : Blk) (cfg : Config) (hstep : 0 < cfg.step) (s0 : State) (h0 : initPopB B cfg = .ok s0) :
+    TimedAt s0 := by
+  obtain ⟨hlen, hrows⟩ := initial_population B cfg s0 h0
+  have hc := (initPop_good B cfg s0 h0).2
+  intro i r hr
+  have hi : i < cfg.pop := by rw [← hlen]; exact lt_of_getElem? hr
+  obtain ⟨r', hr', _, htr, hex, hen, _⟩ := hrows i hi
+  rw [hr] at hr'; cases hr'
+  exact ⟨by rw [hen, hc]; omega, Or.inl ⟨htr, hex⟩⟩
+
+/-- over a whole run -/
+theorem exit_after_entrance (B : Blk) (cfg : Config) (hstep : 0 < cfg.step) (n : Nat) (s0 s : State)
+    (h0 : initPopB B cfg = .ok s0) (h : iterWhole B cfg n s0 = .ok s) : TimedAt s := by
+  have key : ∀ (n : Nat) (a b : State), TimedAt a → iterWhole B cfg n a = .ok b → TimedAt b := by
+    intro n
+    induction n with
+    | zero => intro a b ha hab; cases hab; exact ha
+    | succ n ih =>
+      intro a b ha hab
+      unfold iterWhole at hab
+      split at hab
+      · rename_i a1 h1
+        exact ih a1 b (step_timed B cfg hstep a a1 ha h1) hab
+      · cases hab
+  exact key n s0 s (initPop_timed B cfg hstep s0 h0) h
+
+/-- **the exit time is the event time of the step**: whoever is untracked after a step either was untracked
+before it (and is unchanged) or carries `exit = ` the new clock `= clock + step` – for simulants born during that
+very step as well -/
+theorem exit_is_event_time (B : Blk) (cfg : Config) (s s' : State) (h : stepWhole B cfg s = .ok s')
+    (i : Nat) (r' : Row) (hr' : s'.rows[i]? = some r') (hu : r'.tracked = false) :
+    (s.rows[i]? = some r') ∨ r'.exit = some s'.clock := by
+  let I : State → Prop := fun x => x.clock = s.clock ∧
+    ∀ (i : Nat) (r' : Row), x.rows[i]? = some r' → r'.tracked = false →
+      (s.rows[i]? = some r') ∨ r'.exit = some (s.clock + cfg.step)
+  have hk : Kept B cfg I := by
+    intro x x' ⟨hc, hx⟩ hr
+    refine ⟨hr.clock.trans hc, fun i r' hr' hu => ?_⟩
+    rcases Nat.lt_or_ge i x.rows.length with hlt | hge
+    · have hri : x.rows[i]? = some x.rows[i] := by simp [hlt]
+      obtain ⟨r'', hr'', hev⟩ := hr.old i _ hri
+      rw [hr'] at hr''; cases hr''
+      rcases hev with h | ⟨htr, y, h⟩ | ⟨htr, h⟩
+      · rw [h] at hu ⊢; exact hx i _ hri hu
+      · rw [h] at hu; simp [htr] at hu
+      · right; rw [h, hc]
+    · obtain ⟨htr, _⟩ := hr.new i r' hr' hge
+      rw [htr] at hu; cases hu
+  obtain ⟨s1, ⟨hc1, h1⟩, _, rfl⟩ := step_inv B cfg I hk s s' ⟨rfl, fun i r' hr' hu => Or.inl hr'⟩ h
+  rcases h1 i r' hr' hu with h | h
+  · exact Or.inl h
+  · right; rw [h]; show _ = some (s1.clock + cfg.step); rw [hc1]
 
 end Viv.Props.Whole
